@@ -49,6 +49,10 @@ def cases(tier, seed):
                     cs.append({'targets': names, 'threads': th, 'fmt': fmt})
     for fmt in ('text', 'json'):
         cs.append({'targets': ['clean', 'terrapin', 'rsa1024'], 'threads': 2, 'fmt': fmt})
+        # ... and with -v, which adds progress messages: stdout of a JSON run stays one array (-d is left out: debug output is requested text on stdout, in JSON runs too)
+        if fmt == 'json':
+            for th in (1, 2, 32):
+                cs.append({'targets': ['clean', 'terrapin', 'rsa1024'], 'threads': th, 'fmt': fmt, 'opts': ['-v']})
     # rank of the statuses: targets of all four status classes (connection error 1 > failure 3 > warning 2 > good 0) in every order of completion (--threads 1: completion order == file order)
     classes = ['!refused', 'rsa1024', 'warn-only', 'good-only']
     i = 0
@@ -101,7 +105,9 @@ def run_case(c):
     viol, counters = [], {'multi_runs': 1}
     fails = [n[1:] for n in names if n.startswith('!')]
     try:
-        res = multi.run_multi(targets, c['threads'], c['fmt'], tmo=2, timeout=150)
+        res = multi.run_multi(targets, c['threads'], c['fmt'], tmo=2, timeout=150, extra=c.get('opts', ()))
+        if c.get('opts'):
+            counters['runs_with_progress_options'] = 1
         r = res['run']
         if r.timed_out:
             return {'verdict': 'inconclusive', 'why': 'watchdog'}
@@ -141,6 +147,16 @@ def run_case(c):
                     stripped, n_ = _re.subn(r'An exception occurred while scanning [^\n]*:\nTraceback \(most recent call last\):\n(?:[ \t][^\n]*\n|[^\n{\[\]]*\n)*?(?=\s*(?:, |\]|\{))', 'null', stripped)
                     if n_:
                         mechs.append('worker-exception-text-in-array')
+                if 'packet checksum CRC32 mismatch' in stripped:
+                    # the SSH-1 checksum error is written to stdout by the worker thread itself, wherever the main thread happens to be (the recorded finding error-printed-outside-block): take the line out;
+                    # that target's own element is then empty
+                    stripped, n_ = _re.subn(r'(\x1b\[[0-9;]*m)?\[exception\] packet checksum CRC32 mismatch\.(\x1b\[0m)?\n?', '', stripped)
+                    if n_:
+                        mechs.append('__crc__')
+                        stripped = _re.sub(r'^\[\s*,', '[null,', stripped)
+                        stripped = _re.sub(r',\s*(?=,)', ', null', stripped)
+                        stripped = _re.sub(r',\s*\]\s*$', ', null]', stripped)
+                        stripped = _re.sub(r'^\[\s*\]\s*$', '[null]', stripped)
                 if '[exception]' in stripped:
                     stripped, n_ = _re.subn(r'(\x1b\[[0-9;]*m)?\[exception\][^\n\x1b]*(\x1b\[0m)?', 'null', stripped)
                     if n_:
@@ -155,6 +171,9 @@ def run_case(c):
                         break
                 if not only_error_text:
                     mechs = ['other:' + tag]
+                if '__crc__' in mechs:
+                    mechs.remove('__crc__')
+                    viol.append(_v('C08/error-printed-outside-block:bad-crc', 'the error of a target is printed directly by the worker thread, not as that target\'s block', lines=[l for l in r.out.split('\n') if 'CRC32 mismatch' in l][:2]))
                 for mech in mechs:
                     viol.append(_v('C08/json-not-one-array:%s' % mech, 'stdout of a multi-target -j run is not a single JSON array', err=res.get('json_error'), out=r.out[:200] + ' ... ' + r.out[-300:]))
                 if only_error_text and len(arr) != len(names):
